@@ -144,7 +144,7 @@ impl<IO> Connection<IO> {
             // consumed parts from the buffer
             #[cfg(feature = "verif-hooks")]
             let verif_before = self.recv_buf.len();
-            let maybe_parsed = response_builder.parse(&mut self.recv_buf)?;
+            let maybe_parsed = response_builder.parse(&mut self.recv_buf);
             #[cfg(feature = "verif-hooks")]
             crate::verif_hooks::emit(crate::verif_hooks::Probe::Parsed {
                 is_async: false,
@@ -158,6 +158,10 @@ impl<IO> Connection<IO> {
             // Join back the remaining data with the main buffer, and readjust the length
             self.recv_buf.unsplit(remaining);
             self.recv_buf.resize(buf_size, 0);
+
+            // Only return a parse error once the buffer is whole again, a later call would otherwise
+            // find fewer bytes in it than `total_received` says and panic
+            let maybe_parsed = maybe_parsed?;
 
             if let Some(response) = maybe_parsed {
                 debug!(
